@@ -67,9 +67,10 @@ Check ==
                           IF ~cc.clean THEN S = must
                           ELSE IF ~remfail' THEN IsSuffix(S, must)
                           \* (after a failed removal: every surviving record is one that must be there - order and
-                          \* uniqueness are checked above - and the newest record, which no cleanup touches, is there)
-                          ELSE /\ \A x \in 1..Len(S) : \E y \in 1..Len(must) : must[y] = S[x]
-                               /\ (Len(must) > 0 => (Len(S) > 0 /\ S[Len(S)] = must[Len(must)])))
+                          \* uniqueness are checked above. Nothing more can be demanded without knowing the files: the
+                          \* files the limit keeps may be empty ones left by forced rotations, and with the newest-first
+                          \* deletion order a newer file goes while the one whose removal failed stays)
+                          ELSE \A x \in 1..Len(S) : \E y \in 1..Len(must) : must[y] = S[x])
                    /\ Cnt(7, cc.clean /\ remfail')
                    /\ Cnt(3, Len(must) < Len(a)) /\ Cnt(4, failed # {})
                    \* once operations succeed again, rotation resumes: no record is appended to a file that
@@ -85,7 +86,11 @@ Check ==
                                   cc.age # "" \/
                                   LET RO == ReadOrder(F) IN
                                   \A j \in 1..Len(RO) - 1 :
-                                      (Len(RO[j].recs) > 0 /\ Len(RO[j+1].recs) > 0 /\ RO[j+1].recs[1][1] > clearId + 1)
+                                      (Len(RO[j].recs) > 0 /\ Len(RO[j+1].recs) > 0 /\ RO[j+1].recs[1][1] > clearId + 1
+                                       \* (the file is judged by what it holds: a record that is missing between the two
+                                       \* although its call saw no failure - MissingOnlyOwnFailure reports that - has counted
+                                       \* for the size criterion, the boundary cannot be judged)
+                                       /\ \A x \in (RO[j].recs[Len(RO[j].recs)][1] + 1)..(RO[j+1].recs[1][1] - 1) : x \in failed)
                                          => (Bytes(RO[j].recs) > cc.size
                                              \/ RO[j].recs[Len(RO[j].recs)][1] \in forced'
                                              \/ RO[j+1].recs[1][1] - 1 \in forced'
